@@ -103,9 +103,18 @@ Proof. intros [W _]. unfold out_at. change (map (evalp (cycle_env d (bz false) x
 Lemma sys_request_high j c e s : Inv s -> 11 <= j ->
   sys_request Current d (run_state j true c e s) = negb (ref_syscall_valid s =? 0).
 Proof.
-  intros I H. unfold sys_request, gate. cbn [run_state t_clk t_time t_rst t_s Current gate_after_reset reset_end andb].
-  replace (10 <? j) with true by (symmetry; apply Z.ltb_lt; lia). rewrite (out_valid s I). reflexivity.
+  intros I H. unfold sys_request, gate. cbn [run_state t_clk t_time t_rst t_s Current gate_from andb].
+  replace (9 <=? j) with true by (symmetry; apply Z.leb_le; lia). rewrite (out_valid s I). reflexivity.
 Qed.
+
+Lemma out_valid_rst s : Inv s -> out_at d true s "o_syscall_valid" = ref_syscall_valid s.
+Proof. intros [W _]. unfold out_at. change (bz true) with 1. change xv0 with (fun _ : nat => 0). rewrite (rtl_outs_in_reset s W). reflexivity. Qed.
+Lemma out_call_rst s : Inv s -> out_at d true s "o_syscall" = ref_syscall s.
+Proof. intros [W _]. unfold out_at. change (bz true) with 1. change xv0 with (fun _ : nat => 0). rewrite (rtl_outs_in_reset s W). reflexivity. Qed.
+
+Lemma sys_request_last_reset c s : Inv s ->
+  sys_request Current d (rst_state 9 true c s) = negb (ref_syscall_valid s =? 0).
+Proof. intros I. unfold sys_request, gate. cbn [rst_state t_clk t_time t_rst t_s Current gate_from andb Z.leb Z.compare Pos.compare Pos.compare_cont]. rewrite (out_valid_rst s I). reflexivity. Qed.
 
 Lemma run_0 st inp evs : run Current d 0 0 st inp evs = (rev evs, inp, st, TNoFuel).
 Proof. reflexivity. Qed.
@@ -126,14 +135,16 @@ Proof.
   apply Z.leb_le in H1. apply Z.ltb_lt in H2. apply andb_true_intro. split; [apply Z.leb_le | apply Z.ltb_lt]; lia.
 Qed.
 
+Definition svc_upd (st : tb) (a' : arch) (ev : event) : tb :=
+  match ev with Exit x => set_exit st (SimModel.to_int x) | Read _ _ => set_tmem st (mem a') | _ => st end.
 Definition svc_state (j c e : Z) (s : rstate) (a' : arch) (ev : event) : tb :=
   run_state j true c (match ev with Exit x => SimModel.to_int x | _ => e end) (if is_read ev then set_mem s (mem a') else s).
 
-Lemma handle_matches_isa j c e s inp a' inp' ev :
-  Inv s -> step (abs s) inp = Ok (a', inp', ev) -> r_fetch s = 211 ->
-  handle_syscall (ref_syscall s) (run_state j true c e s) inp = HOk (svc_state j c e s a' ev) inp' ev /\ ev <> Tau.
+Lemma handle_matches_isa_gen st inp a' inp' ev :
+  Inv (t_s st) -> step (abs (t_s st)) inp = Ok (a', inp', ev) -> r_fetch (t_s st) = 211 ->
+  handle_syscall (ref_syscall (t_s st)) st inp = HOk (svc_upd st a' ev) inp' ev /\ ev <> Tau.
 Proof.
-  intros [Wf I] H K. pose proof Wf as [Hpc [Ha [Hb [Ho Hm]]]].
+  destruct st as [s h0 clk0 rst0 tm0 cyc0 ex0]. cbn [t_s]. intros [Wf I] H K. pose proof Wf as [Hpc [Ha [Hb [Ho Hm]]]].
   unfold step in H. rewrite fetch_abs in H. cbn [pc areg breg oreg mem abs] in H.
   destruct (negb (in_mem (r_pc s / 4))); [discriminate|].
   rewrite K in H. change (211 / 16) with 13 in H. change (211 mod 16) with 3 in H. cbv iota in H.
@@ -142,7 +153,7 @@ Proof.
   assert (Hsmall : 0 <= r_opr s 3 <= 3 -> r_opr s 3 = 3) by (intros Hs; apply (opr_small s 3 I ltac:(lia) ltac:(lia) Hs)).
   destruct (r_opr s 3) as [|p|p] eqn:Eo; [specialize (Hsmall ltac:(lia)); discriminate | | discriminate].
   destruct p as [[p|p|]|[p|p|]|]; try discriminate; try (specialize (Hsmall ltac:(lia)); discriminate).
-  unfold handle_syscall, ref_syscall, svc_state. cbn [run_state t_s r_mem].
+  unfold handle_syscall, ref_syscall, svc_upd. cbn [t_s r_mem].
   destruct (in_mem 1); [|discriminate].
   set (sp := rd (r_mem s) 1) in *.
   change (SimModel.u32 (sp + 2)) with (wrap (sp + 2)). change (SimModel.u32 (sp + 3)) with (wrap (sp + 3)).
@@ -166,6 +177,15 @@ Proof.
       rewrite SimProofs.land_255.
       apply ok3_inv in H. destruct H as [<- [<- <-]]. split; [reflexivity | discriminate].
   - discriminate.
+Qed.
+
+
+Lemma handle_matches_isa j c e s inp a' inp' ev :
+  Inv s -> step (abs s) inp = Ok (a', inp', ev) -> r_fetch s = 211 ->
+  handle_syscall (ref_syscall s) (run_state j true c e s) inp = HOk (svc_state j c e s a' ev) inp' ev /\ ev <> Tau.
+Proof.
+  intros I H K. destruct (handle_matches_isa_gen (run_state j true c e s) inp a' inp' ev I H K) as [E N].
+  change (t_s (run_state j true c e s)) with s in E. split; [|exact N]. rewrite E. destruct ev; reflexivity.
 Qed.
 
 Lemma no_request_is_tau s inp a' inp' ev :
@@ -447,19 +467,19 @@ Qed.
 Lemma tick_time st : t_time (tick Current d st) = t_time st + 1.
 Proof. unfold tick. destruct (veval _ _ _ _ _ _). reflexivity. Qed.
 
-Lemma run_closed k st inp evs : t_time st < 10 ->
+Lemma run_closed k st inp evs : t_time st < 8 ->
   run Current d (S k) 0 st inp evs = run Current d k 0 (tick Current d st) inp evs.
 Proof.
   intros H. cbn [run]. rewrite guard0. cbn [negb]. unfold after_tick.
   replace (sys_request Current d (tick Current d st)) with false; [reflexivity|].
-  unfold sys_request, gate. cbn [Current gate_after_reset reset_end]. rewrite tick_time.
-  replace (10 <? t_time st + 1) with false by (symmetry; apply Z.ltb_ge; lia). rewrite andb_false_r. reflexivity.
+  unfold sys_request, gate. cbn [Current gate_from]. rewrite tick_time.
+  replace (9 <=? t_time st + 1) with false by (symmetry; apply Z.leb_gt; lia). rewrite andb_false_r. reflexivity.
 Qed.
 
 Lemma ticks_time j : forall st, t_time (ticks Current d j st) = t_time st + Z.of_nat j.
 Proof. induction j as [|j IH]; intros st; cbn [ticks]; [lia|]. rewrite IH, tick_time. lia. Qed.
 
-Lemma run_ticks j : forall k st inp evs, t_time st + Z.of_nat j <= 10 ->
+Lemma run_ticks j : forall k st inp evs, t_time st + Z.of_nat j <= 8 ->
   run Current d (j + k) 0 st inp evs = run Current d k 0 (ticks Current d j st) inp evs.
 Proof.
   induction j as [|j IH]; intros k st inp evs H; [reflexivity|].
@@ -493,30 +513,79 @@ Proof.
   - unfold loaded_words. eapply words_of_bytes_range; [apply le_n|]. apply Forall_skipn_. exact F.
 Qed.
 
+(* the state after the eight evaluations in which nothing is sampled, and after the ninth *)
+Lemma edge_reset_fixed m : edge d true true 1 1 (reset_state m) = reset_state m.
+Proof.
+  set (sf := edge d true true 1 1 (reset_state m)).
+  assert (Hm : r_mem sf = m) by (unfold sf; rewrite edge_reset_mem; reflexivity).
+  rewrite <- Hm. apply clear_is_reset. unfold sf. apply edge_reset_regs.
+Qed.
+
+Lemma boot_state8 i file :
+  ticks Current d 8 (power_on i file) = rst_state 8 false 4 (reset_state (r_mem (t_s (power_on i file)))).
+Proof.
+  destruct (tick_power_on i file) as (tp & tm & T1).
+  set (s0 := t_s (power_on i file)) in *.
+  cbn [ticks]. rewrite T1.
+  rewrite tick_rst_down. change (1 + 1) with 2. rewrite tick_rst_up by lia. change (2 + 1) with 3. change (1 + 1) with 2.
+  rewrite tick_rst_down. change (3 + 1) with 4. rewrite tick_rst_up by lia. change (4 + 1) with 5. change (2 + 1) with 3.
+  rewrite tick_rst_down. change (5 + 1) with 6. rewrite tick_rst_up by lia. change (6 + 1) with 7. change (3 + 1) with 4.
+  rewrite tick_rst_down. change (7 + 1) with 8.
+  f_equal. set (sf := edge d true true 1 1 _).
+  assert (Hm : r_mem sf = r_mem s0) by (unfold sf; rewrite !edge_reset_mem; reflexivity).
+  rewrite <- Hm. apply clear_is_reset. unfold sf. apply edge_reset_regs.
+Qed.
+
+Lemma tick_9 m : tick Current d (rst_state 8 false 4 (reset_state m)) = rst_state 9 true 5 (reset_state m).
+Proof. rewrite tick_rst_up by lia. rewrite edge_reset_fixed. reflexivity. Qed.
+
+(* the request sampled at the last reset edge is that of the instruction at address 0, in the canonical state: with
+   areg = 0 it can only be EXIT *)
+Lemma first_sample k m a0 D inp :
+  Inv (reset_state m) -> same_regs a0 (abs (reset_state m)) -> agree D (mem a0) m -> (forall n, wb_mon D n a0 inp = true) ->
+  tb_view (after_tick Current d (rst_state 9 true 5 (reset_state m)) inp [] (run Current d k 0)) = isa_phase k a0 inp [].
+Proof.
+  intros I0 R0 A WB. set (s0 := reset_state m) in *. pose (st := rst_state 9 true 5 s0).
+  destruct (wb_step D 0 a0 inp (WB 1%nat)) as (RD & a1 & inp1 & ev & St & SAFE & _).
+  destruct (tb_follows D s0 a0 inp a1 inp1 ev I0 R0 A RD St SAFE) as (a2' & St2 & R' & A' & I' & _).
+  cbv zeta in R', A', I'.
+  rewrite isa_phase_unfold, St.
+  unfold after_tick. rewrite (sys_request_last_reset 5 s0 I0). unfold ref_syscall_valid.
+  destruct (r_fetch s0 =? 211) eqn:K.
+  - apply Z.eqb_eq in K. cbn [Z.eqb negb]. fold st. change (t_rst st) with true. change (t_s st) with s0. rewrite (out_call_rst s0 I0).
+    destruct (handle_matches_isa_gen st inp a2' inp1 ev I0 St2 K) as [HS NT]. change (t_s st) with s0 in HS. rewrite HS.
+    assert (EX : exists x, ev = Exit x).
+    { unfold handle_syscall, ref_syscall in HS. change (r_areg s0) with 0 in HS. change (0 mod 4) with 0 in HS. cbv iota beta zeta in HS.
+      destruct (tidx_ok _) in HS; [|discriminate]. injection HS as _ _ E. eexists. symmetry. exact E. }
+    destruct EX as [x ->]. reflexivity.
+  - apply Z.eqb_neq in K. cbn [Z.eqb negb]. destruct (no_request_is_tau s0 inp a2' inp1 ev I0 St2 K) as [-> ->].
+    cbn [is_read] in R', A', I'. cbn [push].
+    assert (WB' : forall n, wb_mon (extend D a0) n a1 inp = true).
+    { intros n. destruct (wb_step D n a0 inp (WB (S n))) as (_ & b & i0 & ev' & St' & _ & W). rewrite St in St'. injection St' as <- <- <-. exact W. }
+    destruct k as [|[|k']].
+    + rewrite run_0. reflexivity.
+    + cbn [run]. rewrite guard0. cbn [negb]. rewrite tick_rst_down. unfold after_tick. reflexivity.
+    + cbn [run]. rewrite !guard0. cbn [negb]. rewrite tick_rst_down. unfold after_tick at 1.
+      change (sys_request Current d (rst_state (9 + 1) false 5 s0)) with false. cbv iota.
+      rewrite guard0. cbn [negb]. change (9 + 1) with 10. rewrite tick_release.
+      apply (phase_sim k' 11 (5 + 1) 0 (cycle d s0) a1 (extend D a0) inp [] ltac:(lia) I' R' A' WB').
+Qed.
+
 Theorem tb_is_isa_tb fuel i file inp ws D :
   bytes_ok file ->
   agree D (mem (boot ws)) (r_mem (t_s (power_on i file))) ->
-  fetch (boot ws) <> 211 -> (forall n, wb_mon D n (boot ws) inp = true) ->
+  (forall n, wb_mon D n (boot ws) inp = true) ->
   tb_view (run Current d fuel 0 (power_on i file) inp []) = isa_tb fuel (boot ws) inp.
 Proof.
-  intros F A NS WB. unfold isa_tb. destruct (fuel <=? 10)%nat eqn:Le.
+  intros F A WB. unfold isa_tb. destruct (fuel <=? 8)%nat eqn:Le.
   - apply Nat.leb_le in Le. replace fuel with (fuel + 0)%nat by lia. rewrite run_ticks by (cbn [power_on t_time]; lia). reflexivity.
-  - apply Nat.leb_gt in Le. replace fuel with (10 + S (fuel - 11))%nat at 1 by lia.
-    rewrite run_ticks by (cbn [power_on t_time]; lia). rewrite boot_state.
+  - apply Nat.leb_gt in Le. replace fuel with (8 + S (fuel - 9))%nat at 1 by lia.
+    rewrite run_ticks by (cbn [power_on t_time]; lia). rewrite boot_state8.
     set (m0 := r_mem (t_s (power_on i file))) in *.
     assert (I0 : Inv (reset_state m0)) by (apply reset_inv; apply power_on_mem_range; exact F).
     assert (R0 : same_regs (boot ws) (abs (reset_state m0))) by (repeat split).
-    destruct (wb_step D 0 (boot ws) inp (WB 1%nat)) as (RD & a1 & inp1 & ev & St & SAFE & _).
-    destruct (tb_follows D (reset_state m0) (boot ws) inp a1 inp1 ev I0 R0 A RD St SAFE) as (a2' & St2 & R' & A' & I' & _).
-    cbv zeta in R', A', I'.
-    assert (K : r_fetch (reset_state m0) <> 211).
-    { rewrite <- fetch_abs. rewrite (fetch_agree D (boot ws) (abs (reset_state m0)) R0 A RD). exact NS. }
-    destruct (no_request_is_tau _ inp a2' inp1 ev I0 St2 K) as [-> ->]. cbn [is_read] in R', A', I'.
-    rewrite St.
-    cbn [run]. rewrite guard0. cbn [negb]. rewrite tick_release.
-    apply (phase_sim (fuel - 11) 11 (5 + 1) 0 (cycle d (reset_state m0)) a1 (extend D (boot ws)) inp [] ltac:(lia) I' R' A').
-    intros n. destruct (wb_step D n (boot ws) inp (WB (S n))) as (_ & b & i0 & ev' & St' & _ & W).
-    rewrite St in St'. injection St' as <- <- <-. exact W.
+    cbn [run]. rewrite guard0. cbn [negb]. rewrite tick_9.
+    apply (first_sample (fuel - 9) m0 (boot ws) D inp I0 R0 A WB).
 Qed.
 
 (* ------------------------------------------------------------------ corollaries *)
@@ -552,22 +621,11 @@ Theorem seed_independent fuel i1 i2 file inp :
   bytes_ok file -> well_behaved (Z.of_nat (List.length (loaded_words file))) (loaded_words file) inp ->
   obs (run Current d fuel 0 (power_on i1 file) inp []) = obs (run Current d fuel 0 (power_on i2 file) inp []).
 Proof.
-  intros F [NS WB].
-  pose proof (tb_is_isa_tb fuel i1 file inp _ _ F (region_agree i1 file) NS WB) as V1.
-  pose proof (tb_is_isa_tb fuel i2 file inp _ _ F (region_agree i2 file) NS WB) as V2.
-  apply view_obs; [congruence|]. rewrite V1. unfold isa_tb. destruct (fuel <=? 10)%nat; [cbn; discriminate|].
-  destruct (wb_step _ 0 _ inp (WB 1%nat)) as (_ & a1 & inp1 & ev & St & _ & _). rewrite St.
-  apply (wb_not_stuck _ (extend (region (Z.of_nat (List.length (loaded_words file)))) (boot (loaded_words file)))).
-  intros n. destruct (wb_step _ n _ inp (WB (S n))) as (_ & b & i0 & ev' & St' & _ & W).
-  rewrite St in St'. injection St' as <- <- <-.
-  destruct ev as [|code| |]; try exact W.
-  (* an Exit as the very first event is excluded: the first instruction is not a system call *)
-  exfalso.
-  assert (I0 : Inv (reset_state (mem (boot (loaded_words file))))).
-  { apply reset_inv. unfold boot. cbn [mem]. apply load_words_range; [|lia|].
-    - intros a Ha. unfold WMap.zero. rewrite rd_empty. unfold RefRtl.M32. lia.
-    - unfold loaded_words. eapply words_of_bytes_range; [apply le_n|]. apply Forall_skipn_. exact F. }
-  destruct (no_request_is_tau _ inp a1 inp1 (Exit code) I0 St NS) as [E _]. discriminate.
+  intros F WB.
+  pose proof (tb_is_isa_tb fuel i1 file inp _ _ F (region_agree i1 file) WB) as V1.
+  pose proof (tb_is_isa_tb fuel i2 file inp _ _ F (region_agree i2 file) WB) as V2.
+  apply view_obs; [congruence|]. rewrite V1. unfold isa_tb. destruct (fuel <=? 8)%nat; [cbn; discriminate|].
+  apply (wb_not_stuck _ (region (Z.of_nat (List.length (loaded_words file))))). exact WB.
 Qed.
 
 (* the ISA's own run function, when it ends with an exit, in the testbench's rhythm *)
@@ -586,20 +644,32 @@ Qed.
 
 (* ------------------------------------------------------------------ C13: the boot state, spelled out *)
 Theorem boot_canonical i file inp :
-  let st := ticks Current d 10 (power_on i file) in
-  run Current d 10 0 (power_on i file) inp [] = ([], inp, st, TNoFuel) /\
-  (forall k, run Current d (10 + k) 0 (power_on i file) inp [] = run Current d k 0 st inp []) /\
-  r_pc (t_s st) = 0 /\ r_areg (t_s st) = 0 /\ r_breg (t_s st) = 0 /\ r_oreg (t_s st) = 0 /\
-  r_mem (t_s st) = r_mem (t_s (power_on i file)) /\
-  (forall j, (j < List.length (loaded_words file))%nat -> rd (r_mem (t_s st)) (Z.of_nat j) = nth j (loaded_words file) 0) /\
-  t_time st = 10 /\ t_clk st = false /\ t_exit st = 0.
+  let st8 := ticks Current d 8 (power_on i file) in
+  let st10 := ticks Current d 10 (power_on i file) in
+  (* nothing is sampled during the first eight evaluations; they end in the canonical state *)
+  run Current d 8 0 (power_on i file) inp [] = ([], inp, st8, TNoFuel) /\
+  (forall k, run Current d (8 + k) 0 (power_on i file) inp [] = run Current d k 0 st8 inp []) /\
+  r_pc (t_s st8) = 0 /\ r_areg (t_s st8) = 0 /\ r_breg (t_s st8) = 0 /\ r_oreg (t_s st8) = 0 /\
+  r_mem (t_s st8) = r_mem (t_s (power_on i file)) /\ t_time st8 = 8 /\ t_exit st8 = 0 /\
+  (* the one request sampled while reset is asserted (time 9) is that of the instruction at address 0 in this state *)
+  (bytes_ok file -> sys_request Current d (tick Current d st8) = (wire d (t_s st8) n_fdata =? 211)) /\
+  (* the state in which the time-11 edge fetches: registers clear, memory exactly as load() left it (no store) *)
+  r_pc (t_s st10) = 0 /\ r_areg (t_s st10) = 0 /\ r_breg (t_s st10) = 0 /\ r_oreg (t_s st10) = 0 /\
+  r_mem (t_s st10) = r_mem (t_s (power_on i file)) /\
+  (forall j, (j < List.length (loaded_words file))%nat -> rd (r_mem (t_s st10)) (Z.of_nat j) = nth j (loaded_words file) 0) /\
+  t_time st10 = 10 /\ t_clk st10 = false.
 Proof.
   cbv zeta. split; [|split].
-  - change 10%nat with (10 + 0)%nat at 1. rewrite run_ticks by (cbn [power_on t_time]; lia). reflexivity.
+  - change 8%nat with (8 + 0)%nat at 1. rewrite run_ticks by (cbn [power_on t_time]; lia). reflexivity.
   - intros k. apply run_ticks. cbn [power_on t_time]. lia.
-  - rewrite boot_state. cbn [rst_state t_s reset_state r_pc r_areg r_breg r_oreg r_mem t_time t_clk t_exit].
-    repeat split. intros j Hj. unfold power_on. cbn [t_s r_mem].
-    change (Z.of_nat j) with (0 + Z.of_nat j). apply rd_load_words_inside; [lia | exact Hj].
+  - rewrite boot_state, boot_state8. cbn [rst_state t_s reset_state r_pc r_areg r_breg r_oreg r_mem t_time t_clk t_exit].
+    repeat (split; [reflexivity|]). split; [|repeat (split; [reflexivity|])].
+    + intros F. set (m0 := r_mem (t_s (power_on i file))).
+      assert (I0 : Inv (reset_state m0)) by (apply reset_inv; apply power_on_mem_range; exact F).
+      fold (reset_state m0). fold (rst_state 8 false 4 (reset_state m0)). rewrite tick_9, (sys_request_last_reset 5 _ I0).
+      destruct I0 as [W0 _]. rewrite (rtl_fetch_is_ref _ W0). unfold ref_syscall_valid. destruct (r_fetch (reset_state m0) =? 211); reflexivity.
+    + split; [|split; reflexivity]. intros j Hj. unfold power_on. cbn [t_s r_mem].
+      change (Z.of_nat j) with (0 + Z.of_nat j). apply rd_load_words_inside; [lia | exact Hj].
 Qed.
 
 (* C13: execution begins at byte address 0 of the image: in the boot state pc = 0, the fetched byte is the first image
@@ -690,23 +760,17 @@ Theorem tb_equals_sim i file hw inp n tr inp' a' c (ws := firstn hw (loaded_word
   bytes_ok file -> (hw <= List.length (loaded_words file))%nat ->
   well_behaved (Z.of_nat hw) ws inp ->
   Isa.run n (boot ws) inp [] = (tr, inp', a', Exited c) ->
-  (exists st, run Current d (11 + 2 * n) 0 (power_on i file) inp [] = (tr, inp', st, TReturned (SimModel.to_int c))) /\
+  (exists st, run Current d (9 + 2 * n) 0 (power_on i file) inp [] = (tr, inp', st, TReturned (SimModel.to_int c))) /\
   (exists s, SimModel.run n 0 (SimModel.cpp_init ws) inp [] = (tr, inp', s, SimModel.Returned (SimModel.to_int c))).
 Proof.
-  intros F L [NS WB] H.
+  intros F L WB H.
   assert (Fw : Forall (fun w => 0 <= w < 4294967296) ws).
   { unfold ws. apply firstn_range. unfold loaded_words. eapply words_of_bytes_range; [apply le_n|]. apply Forall_skipn_. exact F. }
   split.
-  - pose proof (tb_is_isa_tb (11 + 2 * n) i file inp ws _ F (image_agree i file hw L) NS WB) as V.
-    unfold isa_tb in V. replace (11 + 2 * n <=? 10)%nat with false in V by (symmetry; apply Nat.leb_gt; lia).
-    destruct n as [|n']; [discriminate|]. cbn [Isa.run] in H.
-    destruct (step (boot ws) inp) as [[[a1 inp1] ev]|u] eqn:St; [|discriminate].
-    assert (I0 : Inv (reset_state (mem (boot ws)))).
-    { apply reset_inv. unfold boot. cbn [mem]. apply load_words_range; [|lia|exact Fw].
-      intros a Ha. unfold WMap.zero. rewrite rd_empty. unfold RefRtl.M32. lia. }
-    destruct (no_request_is_tau _ inp a1 inp1 ev I0 St NS) as [-> ->].
-    rewrite (isa_run_phase n' a1 inp [] tr inp' a' c H) in V by lia.
-    destruct (run Current d (11 + 2 * S n') 0 (power_on i file) inp []) as [[[t2 i2] st] e2].
+  - pose proof (tb_is_isa_tb (9 + 2 * n) i file inp ws _ F (image_agree i file hw L) WB) as V.
+    unfold isa_tb in V. replace (9 + 2 * n <=? 8)%nat with false in V by (symmetry; apply Nat.leb_gt; lia).
+    rewrite (isa_run_phase n (boot ws) inp [] tr inp' a' c H) in V by lia.
+    destruct (run Current d (9 + 2 * n) 0 (power_on i file) inp []) as [[[t2 i2] st] e2].
     cbn in V. injection V as -> -> V. exists st. destruct e2; cbn in V; try discriminate. injection V as ->. reflexivity.
   - pose proof (SimProofs.run_is_isa_trace n (SimModel.cpp_init ws) inp []) as T.
     assert (Wf : SimProofs.wf (SimModel.cpp_init ws)).
@@ -727,13 +791,13 @@ Proof. eexists. vm_compute. reflexivity. Qed.
 
 Lemma exit7_well_behaved_image : well_behaved 9 (firstn 9 (loaded_words exit7_file)) no_input.
 Proof.
-  split; [vm_compute; discriminate|]. destruct exit7_isa_run as [a' R]. eapply wb_exited; [exact R|]. vm_compute. reflexivity.
+  unfold well_behaved. destruct exit7_isa_run as [a' R]. eapply wb_exited; [exact R|]. vm_compute. reflexivity.
 Qed.
 
 Lemma exit7_well_behaved_loaded :
   well_behaved (Z.of_nat (List.length (loaded_words exit7_file))) (loaded_words exit7_file) no_input.
 Proof.
-  split; [vm_compute; discriminate|].
+  unfold well_behaved.
   assert (R : exists a', Isa.run 20 (boot (loaded_words exit7_file)) no_input [] = ([Exit 7], no_input, a', Exited 7)) by (eexists; vm_compute; reflexivity).
   destruct R as [a' R]. eapply wb_exited; [exact R|]. vm_compute. reflexivity.
 Qed.
@@ -749,4 +813,21 @@ Proof.
   intros h pcv av bv ov fill Hh Hp. cbn [In] in Hh, Hp.
   repeat (destruct Hh as [<-|Hh]); try contradiction;
   repeat (destruct Hp as [Hp|Hp]; [injection Hp as <- <- <- <- <-|]); try contradiction; vm_compute; reflexivity.
+Qed.
+
+(* ------------------------------------------------------------------ the tree between the two repairs ([Previous]: requests
+   sampled only after reset): a binary whose first instruction is OPR SVC (EXIT 42) never had that call serviced -- it ran
+   on and exited with 9; with the current gate the testbench exits with 42 as the ISA does *)
+Definition first_svc_file : list Z :=
+  [5; 0; 0; 0;  211; 50; 33; 48;  1; 0; 0; 0;  48; 211; 0; 0;  42; 0; 0; 0;  9; 0; 0; 0].
+Lemma first_svc_witness :
+  outcome (run Previous d 60 0 (power_on (planted 0 0 false) first_svc_file) no_input []) = ([Exit 9], TReturned 9) /\
+  outcome (run Current d 60 0 (power_on (planted 0 0 false) first_svc_file) no_input []) = ([Exit 42], TReturned 42) /\
+  outcome (run Current d 60 0 (power_on (planted 13 1 true) first_svc_file) no_input []) = ([Exit 42], TReturned 42) /\
+  (exists a', Isa.run 5 (boot (loaded_words first_svc_file)) no_input [] = ([Exit 42], no_input, a', Exited 42)) /\
+  well_behaved 5 (loaded_words first_svc_file) no_input.
+Proof.
+  split; [vm_compute; reflexivity|]. split; [vm_compute; reflexivity|]. split; [vm_compute; reflexivity|].
+  assert (R : exists a', Isa.run 5 (boot (loaded_words first_svc_file)) no_input [] = ([Exit 42], no_input, a', Exited 42)) by (eexists; vm_compute; reflexivity).
+  split; [exact R|]. destruct R as [a' R]. unfold well_behaved. eapply wb_exited; [exact R|]. vm_compute. reflexivity.
 Qed.
